@@ -8,13 +8,17 @@ open Gen
 /-- `<field>_<name>`, built from the identifiers without a raw-identifier prefix (`r#`) -/
 def renamed (base name : String) : String := unraw base ++ "_" ++ unraw name
 
+/-- a base function that can be forwarded: public, and not one of the `_`-prefixed internal functions, which get no
+    wrapper on the base itself (see the open finding C05/…/underscore-name) -/
+def reexposable (f : SFunc) : Bool := f.vis == .pub && !f.isInternal
+
 /-- **the property**, injection clause: re-exposing the public functions `fs` of base field `base` on a
     type whose member names so far are `used`: each keeps its own name, or becomes `<base>_<name>` when
     that name is taken, and forwards to the original on the base field -/
 def specInject (base : String) : List String → List SFunc → List SFunc
   | _, [] => []
   | used, f :: fs =>
-    if f.vis == .pub then
+    if reexposable f then
       let name := if used.contains f.name then renamed base f.name else f.name
       { f with name := name, body := .field base f.name } :: specInject base (name :: used) fs
     else specInject base used fs
@@ -23,7 +27,7 @@ def specInject (base : String) : List String → List SFunc → List SFunc
 def usedAfter (base : String) : List String → List SFunc → List String
   | used, [] => used
   | used, f :: fs =>
-    if f.vis == .pub then
+    if reexposable f then
       usedAfter base ((if used.contains f.name then renamed base f.name else f.name) :: used) fs
     else usedAfter base used fs
 
